@@ -843,6 +843,14 @@ def suite_ser(g, scale):
             g.emit("bufchk64 %s" % u)
         g.emit("wf64 %s" % u)
         g.emit("dig64 %s" % x)
+    # 1a. a failed decode into a previously used bitmap, which is then used again
+    made0 = [l.split(" ")[1] for l in g.lines if l.startswith("ser64 ")]
+    for x in made0[:6]:
+        for cut in r.sample([1, 7, 8, 9, 12, 13, 17, 20, 24, 31, 40, 100, 1000], 3):
+            y = g.fresh("s")
+            h.build(y)
+            g.emit("rdfail64 %s %s %s %d %s" % (y, r.choice(ENTRIES), x, cut, " ".join(str(r.choice([5, 1 << 32, (1 << 33) + 7, MAXV - 3])) for _ in range(2))))
+            g.count("ser64:rdfail")
     # 1b. several serializations in flight: the returned byte slices stay what they were
     made = [l.split(" ")[1] for l in g.lines if l.startswith("ser64 ")]
     for _ in range(int(3 * scale) + 1):
